@@ -12,7 +12,7 @@ use refchess::Pos;
 use serde_json::{json, Value};
 use std::cell::RefCell;
 
-pub const RULE: &str = "histories of 1..4 position commands sent to one engine (fresh per case) through the real handle_command (hook verif_handle_command), with ucinewgame / isready lines between them in 30% of the steps, and 30% of the later commands being the previous command word for word or continued by 1..3 further moves (as a GUI restates a game); each is 'startpos' or a six-field FEN written by the reference from a valid generated position with counters a real game can reach (fullmove 1..6000 weighted to 1, two-digit, 200..300 and four-digit values; halfmove clock 0..150 but never more than the plies played so far, 0 after a double push, and exactly on that bound in a quarter of the cases), followed by 'moves' and a reference-legal playout of 0..250 plies in UCI notation (castling as king move, promotions with piece letter); whitespace varied as the protocol allows. A quarter of the commands that follow a game with a promotion are that game with one promotion made to ANOTHER piece (same squares, another letter), continued by 0..2 moves. Enumerated parts: 'grid-moves' (positions of the check-geometry and castling-rights grids followed by ONE move: every castle, en-passant capture, promotion letter, double push and corner capture of the position; quick tier a seed-dependent share) and 'castle-lookalikes' (moves spelt e1g1/e1c1/e8g8/e8c8/e1h1/e1a1/e8h8/e8a8 made by a rook or queen on e1/e8 with the mover's king at home with every subset of its rights, or away). Oracle: engine board (hook verif_board) after EVERY command == reference position after the playout (placement, side, rights, ep convention, bitboard consistency); no panic. Non-trivial = a FEN that is not the start position and/or a move list containing a castle, ep capture or promotion; distinct by command text.";
+pub const RULE: &str = "histories of 1..4 position commands sent to one engine (fresh per case) through the real handle_command (hook verif_handle_command), with ucinewgame / isready lines between them in 30% of the steps, and 30% of the later commands being the previous command word for word or continued by 1..3 further moves (as a GUI restates a game); each is 'startpos' or a six-field FEN written by the reference from a valid generated position with counters a real game can reach (fullmove 1..6000 weighted to 1, two-digit, 200..300 and four-digit values; halfmove clock 0..150 but never more than the plies played so far, 0 after a double push, and exactly on that bound in a quarter of the cases), followed by 'moves' and a reference-legal playout of 0..250 plies in UCI notation (castling as king move, promotions with piece letter); whitespace varied as the protocol allows. A quarter of the commands that follow a game with a promotion are that game with one promotion made to ANOTHER piece (same squares, another letter), continued by 0..2 moves. Enumerated parts: 'grid-moves' (positions of the check-geometry and castling-rights grids followed by ONE move: every castle, en-passant capture, promotion letter, double push and corner capture of the position; quick tier a seed-dependent share) and 'castle-lookalikes' (moves spelt e1g1/e1c1/e8g8/e8c8/e1h1/e1a1/e8h8/e8a8 made by a rook or queen on e1/e8 with the mover's king at home with every subset of its rights, or away). Part 'long-games': games of 500..900 plies from the start position in which no position occurs twice (over 512 distinct positions), given as one position command (a call that does not return within 90 s ends the run as inconclusive). Oracle: engine board (hook verif_board) after EVERY command == reference position after the playout (placement, side, rights, ep convention, bitboard consistency); no panic. Non-trivial = a FEN that is not the start position and/or a move list containing a castle, ep capture or promotion; distinct by command text.";
 
 thread_local! {
     static ENGINE: RefCell<Option<Flounder>> = RefCell::new(None);
@@ -404,6 +404,41 @@ fn judge_lookalike(item: &(Pos, refchess::Mv), stats: &mut Stats) -> Verdict {
     Ok(())
 }
 
+/// Part 'long-games': "move sequences of any length" — games of 520..900 plies from the start
+/// position in which no position occurs twice (more than 512 distinct positions in the history the
+/// position command records), every prefix length a GUI would send near the end included.
+fn check_long_game(bytes: &[u8], stats: &mut Stats) -> Verdict {
+    let mut s = Src::new(bytes);
+    let want = *s.pick(&[500usize, 511, 512, 513, 520, 600, 700, 900]);
+    let (moves, last, distinct) = gen::long_game(&mut s, want);
+    let text = format!("position startpos moves {}", moves.iter().map(|m| m.uci()).collect::<Vec<_>>().join(" "));
+    let text2 = text.clone();
+    let board = crate::run_with_deadline(90, format!("position command with a game of {} plies (case saved in the evidence samples)", moves.len()), move || {
+        let mut fl = Flounder::new();
+        let r = std::panic::catch_unwind(std::panic::AssertUnwindSafe(|| {
+            fl.verif_handle_command(&text2);
+            *fl.verif_board()
+        }));
+        r.map_err(|p| crate::panic_text(&p))
+    });
+    stats.eval();
+    let board = match board {
+        Ok(b) => b,
+        Err(msg) => return Err(Failure::new("position-command-panic", json!({"commands": [text], "panic": msg}))),
+    };
+    if let Err(why) = eng::compare_board(&board, &last) {
+        return Err(Failure::new("wrong-position", json!({"commands": [text], "expected": last.fen4(), "engine": eng::board_to_pos(&board).fen4(), "why": why})));
+    }
+    stats.class("long_games");
+    if distinct > 512 {
+        stats.class("long_games_with_more_than_512_distinct_positions");
+        stats.nontrivial(&text);
+    }
+    stats.maximum("longest_game_plies", moves.len() as i64);
+    stats.maximum("most_distinct_positions_in_a_game", distinct as i64);
+    Ok(())
+}
+
 pub fn run(tier: Tier, seed: u64, known: &Known) -> PropRun {
     let mut run = PropRun::new("exploration", RULE);
     run.assumptions = vec![
@@ -428,6 +463,15 @@ pub fn run(tier: Tier, seed: u64, known: &Known) -> PropRun {
         let items = castle_lookalikes();
         run.stats.class_n("castle_lookalikes_enumerated", items.len() as u64);
         let (st, fl) = crate::runner::run_enumerated("castle-lookalikes", &items, threads(), seed, known, |it, st| judge_lookalike(it, st));
+        run.stats.merge(st);
+        if fl.is_some() {
+            run.failure = fl;
+            return run;
+        }
+    }
+    {
+        let part = Part { name: "long-games", cases: tier.pick(48, 1_000), min_len: 600, max_len: 1200, max_shrink: 0, threads: threads() };
+        let (st, fl) = run_part(&part, seed, known, check_long_game);
         run.stats.merge(st);
         if fl.is_some() {
             run.failure = fl;
